@@ -3,6 +3,7 @@ from .pathgen import PathGen
 from .pathterms import PathT, Prim
 from .ruleterms import RuleT
 from .terms import Leaf, Null, Bin
+from .valgen import copy_value
 
 VALUE_CLASSES = ["Value", "Value", "ValueLength", "ValueDataType"]
 
@@ -25,7 +26,15 @@ class RuleGen:
         pt = self.pg.path(doc, max_len=3, mods_p=0.0)
         sel = self.selected(pt, doc)
         probe = [x for x in sel] or [1, "a"]
-        cond = self.cg.tree(probe, depth=self.r.choice([0, 1, 1, 2, depth]), classes=VALUE_CLASSES, null_p=0.08)
+        if sel and self.r.random() < 0.4:
+            # a condition that is meaningful for (and mostly true of) one of the selected nodes
+            cond = self.cg.sensible_leaf(self.r.choice(sel))
+            if self.r.random() < 0.3:
+                other = self.cg.sensible_leaf(self.r.choice(sel)) if self.r.random() < 0.6 else self.cg.leaf(probe, cls="Value")
+                cond = Bin(self.r.choice(["and", "or", "xor"]), cond, other) if self.r.random() < 0.5 else \
+                    Bin(self.r.choice(["and", "or", "xor"]), other, cond)
+        else:
+            cond = self.cg.tree(probe, depth=self.r.choice([0, 1, 1, 2, depth]), classes=VALUE_CLASSES, null_p=0.08)
         if path_args_p and self.r.random() < path_args_p:
             cond = self.with_path_arg(cond, doc)
         cast = []
@@ -40,13 +49,31 @@ class RuleGen:
             return cond
         l = self.r.choice(leaves)
         p = self.pg.path(doc, max_len=2, mods_p=0.5)
-        if l.args and (not l.kwargs or self.r.random() < 0.6):
-            i = self.r.randrange(len(l.args))
+        pos = bool(l.args and (not l.kwargs or self.r.random() < 0.6))
+        i = self.r.randrange(len(l.args)) if pos else self.r.choice(list(l.kwargs))
+        lit = l.args[i] if pos else l.kwargs[i]
+        if self.r.random() < 0.6 and self.plantable(lit):
+            # plant the literal in the document and point the path at it: the argument then resolves to the value the
+            # leaf generator chose (related to the selected data), so that true verdicts are as frequent as for literals
+            if isinstance(doc, dict):
+                key = "_arg" if "_arg" not in doc else "_arg2"
+                doc[key] = copy_value(lit)
+                p = PathT([Prim(key)])
+            else:
+                doc.append(copy_value(lit))
+                p = PathT([Prim(len(doc) - 1)])
+        if pos:
             l.args[i] = p
         else:
-            k = self.r.choice(list(l.kwargs))
-            l.kwargs[k] = p
+            l.kwargs[i] = p
         return cond
+
+    def plantable(self, v):
+        if isinstance(v, (list, tuple)):
+            return not isinstance(v, tuple) and all(self.plantable(x) for x in v)
+        if isinstance(v, dict):
+            return all(self.plantable(x) for x in v.values())
+        return v is None or isinstance(v, (bool, int, float, str))
 
     def sibling(self, rt, doc, cast_p=0.0):
         """A rule whose path is that of `rt` (or the same path with one key / index replaced by an equal value of
